@@ -6,3 +6,4 @@ CONSTANTS MaxLines = 2
  MaxIns = 2
  Export = FALSE
  ExportMaxIns = 1
+ Opt = "none"
